@@ -163,15 +163,15 @@ theorem sampledLFU_updateIfHas_cache_partial (g : SampledLFU) (met : Met) (k c :
     rcases slt_trichotomy c prev with h1 | ⟨h1, h2⟩ | e
     · cases hm : g.metrics_nonnil <;>
       simp [applyEffs, applyEff, bump, metric_costEvict, metric_keyEvict, metric_hit, metric_miss, metric_keyAdd,
-        metric_keyUpdate, metric_costAdd, AMap.mapVals_insert, hm, not_sub_one, ofInt_toInt_sub, RV.Cache.w64, h1, this]
+        metric_keyUpdate, metric_costAdd, AMap.mapVals_insert, hm, not_sub_one, neg_sub_bv, ofInt_toInt_sub, RV.Cache.w64, h1, this]
     · cases hm : g.metrics_nonnil <;>
       simp [applyEffs, applyEff, bump, metric_costEvict, metric_keyEvict, metric_hit, metric_miss, metric_keyAdd,
-        metric_keyUpdate, metric_costAdd, AMap.mapVals_insert, hm, not_sub_one, ofInt_toInt_sub, RV.Cache.w64, h1, h2, this]
+        metric_keyUpdate, metric_costAdd, AMap.mapVals_insert, hm, not_sub_one, neg_sub_bv, ofInt_toInt_sub, RV.Cache.w64, h1, h2, this]
     · subst e
       have hs := slt_self_false c
       cases hm : g.metrics_nonnil <;>
       simp [applyEffs, applyEff, bump, metric_costEvict, metric_keyEvict, metric_hit, metric_miss, metric_keyAdd,
-        metric_keyUpdate, metric_costAdd, AMap.mapVals_insert, hm, not_sub_one, ofInt_toInt_sub, RV.Cache.w64, hs] at this ⊢
+        metric_keyUpdate, metric_costAdd, AMap.mapVals_insert, hm, not_sub_one, neg_sub_bv, ofInt_toInt_sub, RV.Cache.w64, hs] at this ⊢
 
 /-- the metric half of `sampledLFU.updateIfHas`, with no side condition -/
 theorem sampledLFU_updateIfHas_metrics (g : SampledLFU) (met : Met) (k c : BitVec 64) :
@@ -184,15 +184,15 @@ theorem sampledLFU_updateIfHas_metrics (g : SampledLFU) (met : Met) (k c : BitVe
     rcases slt_trichotomy c prev with h1 | ⟨h1, h2⟩ | e
     · cases hm : g.metrics_nonnil <;>
       simp [applyEffs, applyEff, bump, metric_costEvict, metric_keyEvict, metric_hit, metric_miss, metric_keyAdd,
-        metric_keyUpdate, metric_costAdd, AMap.mapVals_insert, hm, not_sub_one, ofInt_toInt_sub, RV.Cache.w64, h1]
+        metric_keyUpdate, metric_costAdd, AMap.mapVals_insert, hm, not_sub_one, neg_sub_bv, ofInt_toInt_sub, RV.Cache.w64, h1]
     · cases hm : g.metrics_nonnil <;>
       simp [applyEffs, applyEff, bump, metric_costEvict, metric_keyEvict, metric_hit, metric_miss, metric_keyAdd,
-        metric_keyUpdate, metric_costAdd, AMap.mapVals_insert, hm, not_sub_one, ofInt_toInt_sub, RV.Cache.w64, h1, h2]
+        metric_keyUpdate, metric_costAdd, AMap.mapVals_insert, hm, not_sub_one, neg_sub_bv, ofInt_toInt_sub, RV.Cache.w64, h1, h2]
     · subst e
       have hs := slt_self_false c
       cases hm : g.metrics_nonnil <;>
       simp [applyEffs, applyEff, bump, metric_costEvict, metric_keyEvict, metric_hit, metric_miss, metric_keyAdd,
-        metric_keyUpdate, metric_costAdd, AMap.mapVals_insert, hm, not_sub_one, ofInt_toInt_sub, RV.Cache.w64, hs]
+        metric_keyUpdate, metric_costAdd, AMap.mapVals_insert, hm, not_sub_one, neg_sub_bv, ofInt_toInt_sub, RV.Cache.w64, hs]
 
 /-- `sampledLFU.add` is the accounting half of the model's `polAddKey` (its `costAdd` metric is
 written by `defaultPolicy.Add` itself), when `p.used += cost` does not wrap. -/
